@@ -229,8 +229,10 @@ def c06_edges(tier, seed):
             viol.append({'id': 'estimate-range-after-group-update', 'input': 'est = Estimate({A: 1}); lib[A].update(wider range 298-1500); est.get_HoRT(1200)',
                          'observed': {'range the estimate reports': r5, 'get_HoRT(1200)': k5}, 'expected': 'an error or a warning: 1200 K is outside the reported range',
                          'script': None})
-        # the same through set_range on the estimate itself
+        # the same through set_range on the estimate itself -- after the very temperatures were answered while they were still inside the range
         est5b = lib5.Estimate({'A': 1}, 'thermochem')
+        for m5 in ('get_CpoR', 'get_HoRT', 'get_SoR'):
+            getattr(est5b, m5)(900.)
         est5b.set_range((298., 500.))
         for m5 in ('get_CpoR', 'get_HoRT', 'get_SoR'):
             n += 1
@@ -239,6 +241,21 @@ def c06_edges(tier, seed):
                 k5 = real.outcome(getattr(est5b, m5), 900.)
             if k5[0] == 'ok' and not w5:
                 viol.append({'id': 'estimate-own-range-%s' % m5, 'input': 'est.set_range((298, 500)); est.%s(900)' % m5, 'observed': k5, 'expected': 'an error or a warning'})
+        # ARRAYS of temperatures (Cp/R accepts them): one element outside the range, wherever it stands in the array, is signalled
+        import numpy as _np
+        est5c = lib5.Estimate({'A': 1}, 'thermochem')
+        grp5 = lib5['A']['thermochem']
+        r5c = est5c.get_range()
+        for obj_name, obj in (('estimate', est5c), ('group correlation', grp5), ('table correlation', grp5._correlation)):
+            for arr in ([725., 1700., 726.], [2000., 899.], [600., 700., 1501.], [[400., 500.], [5000., 600.]], [297.0, 400.]):
+                n += 1
+                with _w.catch_warnings(record=True) as w5:
+                    _w.simplefilter('always')
+                    k5 = real.outcome(obj.get_CpoR, _np.array(arr))
+                inside = all(r5c[0] <= t_ <= r5c[1] for t_ in _np.ravel(arr)) if r5c else True
+                if k5[0] == 'ok' and not w5 and not inside:
+                    viol.append({'id': 'array-T-%s-%s' % (obj_name.replace(' ', '-'), str(arr).replace(' ', '')), 'input': '%s.get_CpoR(np.array(%r)), range %r' % (obj_name, arr, r5c),
+                                 'observed': str(k5)[:120], 'expected': 'an error or a warning: one temperature is outside the range'})
         lib6 = GroupLibrary(None, {'A': {'thermochem': ThermochemGroup(-10., 25., dict(tabB), 298.15, (298., 1500.))},
                                    'B': {'thermochem': ThermochemGroup(-1., 2., dict(tab), 300.)}})
         lib6.name = 'C'
@@ -826,6 +843,9 @@ def c08_matcher(tier, seed):
     if tier == 'quick':
         smiles = smiles[:25]
     makers = ['Chem.MolFromSmiles(%r)' % s for s in smiles]
+    # the same species under OTHER atom orders: one query object is asked about all of them, one after the other (nothing it learned about a compound
+    # may be carried over to another numbering of its atoms)
+    makers += ["Chem.MolFromSmiles('OCC')", "Chem.MolFromSmiles('C(O)C')", "Chem.MolFromSmiles('O=CC')", "Chem.MolFromSmiles('OC')", "Chem.MolFromSmiles('C(C)[CH2]')"]
     # molecules handed over with SOME hydrogens already explicit (isotope-labelled H, hydrogens added on selected atoms only, all explicit)
     makers += ["Chem.MolFromSmiles('[2H]CC')", "Chem.AddHs(Chem.MolFromSmiles('CCO'), onlyOnAtoms=[0])", "Chem.AddHs(Chem.MolFromSmiles('C=CO'), onlyOnAtoms=[2])",
                "Chem.AddHs(Chem.MolFromSmiles('CC=O'))"]
@@ -1767,6 +1787,26 @@ def c15_histories(tier, seed):
                 viol.append({'id': 'h%d-data-%s' % (h, name), 'input': {'history': trace}, 'observed': 'library data changed', 'expected': 'computing does not alter any library\'s data'})
         if len(samples) < 2:
             samples.append(trace[:10])
+    # the same molecule OBJECT decomposed again (same library, another library, after a failed call): a decomposition leaves nothing behind on the
+    # caller's object that a later decomposition could trip over.  Objects with and without implicit hydrogens, and hydrogen-free ones.
+    from rdkit import Chem
+    makers_ = [("Chem.AddHs(Chem.MolFromSmiles('CC'))", 'BensonGA'), ("Chem.MolFromSmiles('O=C=O')", 'BensonGA'), ("Chem.MolFromSmiles('CCO')", 'BensonGA'),
+               ("Chem.AddHs(Chem.MolFromSmiles('c1ccccc1C'))", 'BensonGA'), ("Chem.AddHs(Chem.MolFromSmiles('C([Pt])C'))", 'GRWSurface2018'), ("Chem.MolFromSmiles('O=C=[Pt]')", 'GRWSurface2018')]
+    for mk_, ln_ in makers_:
+        n += 1
+        with real.quiet():
+            want_ = real.outcome(lambda: {str(k_): v_ for k_, v_ in real.load(ln_, fresh=True).GetDescriptors(eval(mk_, {'Chem': Chem})).items()})
+            lib_ = real.load(ln_, fresh=True)
+            m_ = eval(mk_, {'Chem': Chem})
+            seq_ = []
+            seq_.append(real.outcome(lambda: {str(k_): v_ for k_, v_ in lib_.GetDescriptors(m_).items()}))
+            real.outcome(lambda: real.load('XieGA2022', fresh=True).GetDescriptors(m_))          # another library (may fail for this molecule: that is fine)
+            seq_.append(real.outcome(lambda: {str(k_): v_ for k_, v_ in lib_.GetDescriptors(m_).items()}))
+            seq_.append(real.outcome(lambda: {str(k_): v_ for k_, v_ in real.load(ln_, fresh=True).GetDescriptors(m_).items()}))
+        if any(x_ != want_ for x_ in seq_):
+            viol.append({'id': 'same-mol-object-%s' % mk_, 'input': {'library': ln_, 'molecule object': mk_, 'history': 'decompose; decompose with another library; decompose again; decompose with a freshly loaded library'},
+                         'observed': [str(x_)[:160] for x_ in seq_], 'expected': str(want_)[:200],
+                         'script': "import pgradd.ThermoChem\nfrom rdkit import Chem\nfrom pgradd.GroupAdd.Library import GroupLibrary\nlib = GroupLibrary.Load(%r)\nm = %s\nprint(dict(lib.GetDescriptors(m)))\nprint(dict(lib.GetDescriptors(m)))\n" % (ln_, mk_)})
     return {'name': 'operation-histories', 'evaluations': n, 'distinct_nontrivial': distinct, 'violations': viol, 'samples': samples,
             'bound': '%d scripted (evaluate / merge into the evaluated library / evaluate again) + %d random histories of length 2..%d over 3 libraries, each result compared with the single operation on freshly loaded objects' % (len(scripts), nhist, 12 if tier == 'quick' else 40),
             'rule': 'a case is one history; distinct by seed'}
